@@ -249,4 +249,51 @@ CATALOGUE = [
          old="    atributes['name'] = feature.name", new="    atributes['name'] = feature.name.replace(' ', '_')"),
     dict(id="c07-return-str", props=["C07"], file=TR + "featureide_writer.py", rule="C07-DUMP",
          old="        return xml_str\n", new="        return xml_str.decode('utf8').strip()\n"),
+    # ---- C01 ------------------------------------------------------------------------------------
+    dict(id="c01-and-or-swapped", props=["C01"], file=TR + "uvl_writer.py", rule="C01-OPS",
+         old='ASTOperation.AND: "&",', new='ASTOperation.AND: "|",'),
+    dict(id="c01-reader-and-as-or", props=["C01", "C04"], file=TR + "uvl_reader.py", rule="C0",
+         old="        elif isinstance(ctc_node, UVLPythonParser.AndConstraintContext):\n            operator = ASTOperation.AND",
+         new="        elif isinstance(ctc_node, UVLPythonParser.AndConstraintContext):\n            operator = ASTOperation.OR"),
+    dict(id="c01-lower-as-lowerequals", props=["C01"], file=TR + "uvl_writer.py", rule="C01-OPS",
+         old="ASTOperation.LOWER: '<',", new="ASTOperation.LOWER: '<=',"),
+    dict(id="c01-or-group-card11", props=["C01", "C04"], file=TR + "uvl_reader.py", rule="C0",
+         old="feature.add_relation(Relation(feature, childs, 1, len(childs)))", new="feature.add_relation(Relation(feature, childs, 1, 1))"),
+    dict(id="c01-star-lost", props=["C01"], file=TR + "uvl_writer.py", rule="C01-KIND",
+         old="                max_value = '*' if max_value == -1 else max_value\n                result",
+         new="                max_value = len(rel.children) if max_value == -1 else max_value\n                result"),
+    dict(id="c01-cardinality-parts-swapped", props=["C01", "C04"], file=TR + "uvl_reader.py", rule="C0",
+         old="            min_value = parts[0]\n            max_value = parts[1]", new="            min_value = parts[1]\n            max_value = parts[0]"),
+    dict(id="c01-abstract-not-written", props=["C01"], file=TR + "uvl_writer.py", rule="C01-FIELDS",
+         old='        if feature.is_abstract:\n            attributes.append("abstract")', new='        if feature.is_abstract and False:\n            attributes.append("abstract")'),
+    dict(id="c01-fcard-skipped", props=["C01", "C04"], file=TR + "uvl_reader.py", rule="C0",
+         old="        self._check_feature_cardinality(feature, feature_node)\n", new=""),
+    dict(id="c01-group-names-keep-quotes", props=["C01", "C04"], file=TR + "uvl_reader.py", rule="C0",
+         old="            feature_name = feature_context.reference().getText().replace('\"', '')",
+         new="            feature_name = feature_context.reference().getText()"),
+    dict(id="c01-type-real-as-integer", props=["C01", "C04"], file=TR + "uvl_reader.py", rule="C0",
+         old="                feature_type = FeatureType.REAL", new="                feature_type = FeatureType.INTEGER"),
+    dict(id="c01-false-attr-dropped", props=["C01"], file=TR + "uvl_writer.py", rule="C01-VALUES",
+         old="            if attribute.default_value is not None:\n                attribute_str +=", new="            if attribute.default_value:\n                attribute_str +="),
+    dict(id="c01-no-parentheses", props=["C01"], file=TR + "uvl_writer.py", rule="C01-OPS",
+         old='        return f"({text})" if node.is_op() and node.is_binary_op() else text', new='        return text'),
+    dict(id="c01-filestream-ascii", props=["C01", "C12"], file=TR + "uvl_reader.py", rule="C",
+         old="FileStream(absolute_path, encoding='utf-8')", new="FileStream(absolute_path)"),
+    dict(id="c01-keywords-unquoted", props=["C01"], file=TR + "uvl_writer.py", rule="C01-QUOTE",
+         old="        or name in UVL_KEYWORDS\n", new=""),
+    dict(id="c01-silent-isinstance-table", props=["C01", "C04"], file=TR + "uvl_reader.py", expect="silent",
+         old="""        operator = None
+        if isinstance(ctc_node, UVLPythonParser.AddExpressionContext):
+            operator = ASTOperation.ADD
+        elif isinstance(ctc_node, UVLPythonParser.SubExpressionContext):
+            operator = ASTOperation.SUB
+        elif isinstance(ctc_node, UVLPythonParser.DivExpressionContext):
+            operator = ASTOperation.DIV
+        elif isinstance(ctc_node, UVLPythonParser.MulExpressionContext):
+            operator = ASTOperation.MUL""",
+         new="""        table = {UVLPythonParser.AddExpressionContext: ASTOperation.ADD,
+                 UVLPythonParser.SubExpressionContext: ASTOperation.SUB,
+                 UVLPythonParser.DivExpressionContext: ASTOperation.DIV,
+                 UVLPythonParser.MulExpressionContext: ASTOperation.MUL}
+        operator = next((op for cls_, op in table.items() if isinstance(ctc_node, cls_)), None)"""),
 ]
